@@ -418,6 +418,10 @@ func (g *pgen) cleanupBody(nvars int) *Stmt {
 		if pf.Fail > 0 {
 			return &Stmt{Op: "fail", Kind: "panic", Variant: "panicstr", Id: g.id(), Msg: g.msg(), Next: retUnit()}
 		}
+	case 5:
+		if pf.Skip > 0 { // a cleanup function that skips the test case
+			return &Stmt{Op: "skip", Variant: pick(r, "skip", "skipnow", "skipf"), Msg: g.msg()}
+		}
 	}
 	return &Stmt{Op: "log", Msg: g.msg(), Next: retUnit()}
 }
